@@ -252,6 +252,28 @@ def worker(job):
                 R.count("byte_identical_pairs")
             if c1 == c2 and i1 != i2:
                 R.count("computation_files_equal_for_different_witness")
+    # byte identity again, each run in its own interpreter through the at-exit path
+    src, vectors = rnd.choice(PAIR_PROGRAMS)
+    blobs = []
+    for inputs in vectors[:3]:
+        wd = tempfile.mkdtemp(prefix="c11q-", dir=home)
+        try:
+            script = "from pysnark.runtime import *\nfrom pysnark.boolean import *\nfrom pysnark.branching import if_then_else\nI = %r\n%s\n" % (inputs, src)
+            open(os.path.join(wd, "prog.py"), "w").write(script)
+            pr = subprocess.run([boot.PY, "prog.py"], cwd=wd, env=boot.child_env({"PYSNARK_BACKEND": be}, shims=("flatbuffers",)),
+                                stdout=subprocess.PIPE, stderr=subprocess.PIPE, timeout=120)
+            if pr.returncode == 0 and os.path.exists(os.path.join(wd, "circuit.zkif")):
+                blobs.append((inputs, open(os.path.join(wd, "circuit.zkif"), "rb").read(), open(os.path.join(wd, "computation.zkif"), "rb").read()))
+        finally:
+            shutil.rmtree(wd, ignore_errors=True)
+    for (i1, b1, c1), (i2, b2, c2) in zip(blobs, blobs[1:]):
+        R.case(cell="%s|byte-identity|separate-interpreters" % be, key=(be, "pair-script", src, tuple(i1), tuple(i2)))
+        if b1 != b2:
+            R.violation("circuit-file-depends-on-private-values", "circuit.zkif of two interpreters differs between private inputs %s and %s" % (i1, i2), backend=be, src=src)
+        else:
+            R.count("byte_identical_pairs")
+        if c1 == c2:
+            R.count("computation_files_equal_for_different_witness")
     # a slice through the at-exit path as real scripts
     for k in range(job["scripts"]):
         src, inputs = realrun.hostile_program(rnd, p)
